@@ -7,27 +7,27 @@
 EXTENDS SystemDefs, TLC, Json, IOUtils, TLCExt
 
 Log == ndJsonDeserialize(IOEnv.TRACE_FILE)
-VARIABLES l, st, memo
-vars == <<l, st, memo>>
+VARIABLES l, st, memo, ar        \* ar[h] = identities of h's <<pos, neg>> arrays (System's arr)
+vars == <<l, st, memo, ar>>
 Report(e, fails) == \A c \in fails : PrintT(<<"FAILED", e.id, c>>)
 Failing(S) == {p[1] : p \in {q \in S : ~q[2]}}
 IsEvent(op) == l <= Len(Log) /\ Log[l].op = op /\ l' = l + 1
 ObjOfRec(r) == Obj(r.pos, r.neg, r.ep, r.en, r.sc, r.ec)
-Init == l = 1 /\ st = <<>> /\ memo = <<>>
+Init == l = 1 /\ st = <<>> /\ memo = <<>> /\ ar = <<>>
 
 TraceNew ==
   /\ IsEvent("New")
   /\ LET e == Log[l]
          a == e.args
          o == NewObj(a.p, a.n, a.ep, a.en, a.sc, a.ec, a.sorted)
-     IN /\ st' = <<o>> /\ memo' = <<>>
+     IN /\ st' = <<o>> /\ memo' = <<>> /\ ar' = << <<1, 2>> >>
         /\ Report(e, Failing({<<"C10.raised", e.exc = "">>,
                               <<"C10.new_state", e.exc # "" \/ ObjOfRec(e.post) = o>>}))
 TraceSwap ==
   /\ IsEvent("Swap")
   /\ LET e == Log[l]
          o == SwapObj(st[e.h])
-     IN /\ st' = Append(st, o) /\ UNCHANGED memo
+     IN /\ st' = Append(st, o) /\ UNCHANGED memo /\ ar' = Append(ar, <<ar[e.h][2], ar[e.h][1]>>)
         /\ Report(e, Failing({<<"C10.raised", e.exc = "">>,
                               <<"C10.swap_state", e.exc # "" \/ ObjOfRec(e.post) = o>>,
                               <<"C10.object_not_mutated", e.exc # "" \/ ObjOfRec(e.src_post) = st[e.h]>>}))
@@ -38,7 +38,7 @@ TraceSetEasy ==
   /\ IsEvent("SetEasy")
   /\ LET e == Log[l]
          o == [st[e.h] EXCEPT !.ep = e.ep, !.en = e.en]
-     IN /\ st' = [st EXCEPT ![e.h] = o]
+     IN /\ st' = [st EXCEPT ![e.h] = o] /\ UNCHANGED ar
         /\ memo' = SelectSeq(memo, LAMBDA m : m[1][1] # e.h)
         /\ Report(e, Failing({<<"C10.raised", e.exc = "">>,
                               <<"C10.state_after_assignment", e.exc # "" \/ ObjOfRec(e.post) = o>>}))
@@ -47,7 +47,7 @@ TraceSetConfig ==
   /\ IsEvent("SetConfig")
   /\ LET e == Log[l]
          o == [st[e.h] EXCEPT !.sc = e.sc, !.ec = e.ec]
-     IN /\ st' = [st EXCEPT ![e.h] = o]
+     IN /\ st' = [st EXCEPT ![e.h] = o] /\ UNCHANGED ar
         /\ memo' = SelectSeq(memo, LAMBDA m : m[1][1] # e.h)
         /\ Report(e, Failing({<<"C10.raised", e.exc = "">>,
                               <<"C10.state_after_assignment", e.exc # "" \/ ObjOfRec(e.post) = o>>}))
@@ -56,12 +56,38 @@ TraceSetScores ==
   /\ LET e == Log[l]
          o == IF e.cls = "pos" THEN [st[e.h] EXCEPT !.pos = e.seq] ELSE [st[e.h] EXCEPT !.neg = e.seq]
      IN /\ st' = [st EXCEPT ![e.h] = o]
+        /\ ar' = [ar EXCEPT ![e.h] = IF e.cls = "pos" THEN <<100 + l, @[2]>> ELSE <<@[1], 100 + l>>]
         /\ memo' = SelectSeq(memo, LAMBDA m : m[1][1] # e.h)
         /\ Report(e, Failing({<<"C10.raised", e.exc = "">>,
                               <<"C10.state_after_assignment", e.exc # "" \/ ObjOfRec(e.post) = o>>}))
 
+(* a write INTO the arrays of object h.  Whether another live object sees it depends on whether   *)
+(* it shares the arrays (as coded, swap() does not copy: System.arr); sharing is an implementation *)
+(* choice, not part of any listed property, so for the OTHER objects both outcomes are accepted    *)
+(* (per array) and the recorded one is adopted                                                      *)
+TraceShiftScores ==
+  /\ IsEvent("ShiftScores")
+  /\ LET e == Log[l]
+         sh(seq) == [i \in DOMAIN seq |-> seq[i] + e.d]
+         want == [st[e.h] EXCEPT !.pos = sh(@), !.neg = sh(@)]
+         okOther(k) == LET r == ObjOfRec(e.posts[k]) IN
+                       /\ r.pos \in {st[k].pos, sh(st[k].pos)} /\ r.neg \in {st[k].neg, sh(st[k].neg)}
+                       /\ [r EXCEPT !.pos = st[k].pos, !.neg = st[k].neg] = st[k]
+         good == e.exc = "" /\ Len(e.posts) = Len(st) /\ ObjOfRec(e.posts[e.h]) = want
+                 /\ \A k \in DOMAIN st : k # e.h => okOther(k)
+         asModelled == \A k \in DOMAIN st :
+             LET hit == {ar[e.h][1], ar[e.h][2]} IN
+             ObjOfRec(e.posts[k]) = [st[k] EXCEPT !.pos = IF ar[k][1] \in hit THEN sh(@) ELSE @,
+                                                 !.neg = IF ar[k][2] \in hit THEN sh(@) ELSE @]
+     IN /\ st' = IF good THEN [k \in DOMAIN st |-> ObjOfRec(e.posts[k])] ELSE [st EXCEPT ![e.h] = want]
+        /\ UNCHANGED ar
+        /\ memo' = <<>>
+        /\ Report(e, Failing({<<"C10.raised", e.exc = "">>,
+                              <<"C10.state_after_assignment", e.exc # "" \/ good>>,
+                              <<"DRIFT.array_sharing_model", ~good \/ asModelled>>}))
+
 TraceQuery ==
-  /\ IsEvent("Query") /\ UNCHANGED st
+  /\ IsEvent("Query") /\ UNCHANGED <<st, ar>>
   /\ LET e == Log[l]
          o == st[e.h]
          ok == e.exc = ""
@@ -82,7 +108,7 @@ TraceQuery ==
              <<"C10.repeatable", ~ok \/ ~seen \/ e.out = prev>>,
              <<"C10.independent_of_call_history", ~ok \/ (e.fresh_out = e.out /\ e.fresh_exact)>>}))
 
-Next == TraceNew \/ TraceSwap \/ TraceQuery \/ TraceSetEasy \/ TraceSetConfig \/ TraceSetScores
+Next == TraceNew \/ TraceSwap \/ TraceQuery \/ TraceSetEasy \/ TraceSetConfig \/ TraceSetScores \/ TraceShiftScores
 Spec == Init /\ [][Next]_vars
 AllConsumed == TLCGet("stats").diameter - 1 = Len(Log)
 =============================================================================
